@@ -284,7 +284,7 @@ Section WithAddRule.
     forall rm hd sg p k, ramrep s rm -> hrep s hd sg -> wf_lru p ->
     let r := add_rule p k true s in
     let s' := fst r in
-    nb s' * 128 < 2 ^ 64 -> lastwe s' < 2 ^ 32 ->
+    nb s' * 128 < 2 ^ 64 -> lastwe s' + 1 < 2 ^ 32 ->
     exists f0 rm' hd' sg' n c, snd r = Report n c /\
       (forall f, (f0 <= f)%nat ->
          py_traph_add_webentity_creation_rule f rm hd sg p k true = Some (rm', hd', sg', report_of n c)) /\
@@ -292,7 +292,7 @@ Section WithAddRule.
 
   (* the loop from the state reached after the rules l1, for the remaining rules l2 *)
   Lemma rules_loop_ok : forall d l2 l1 rm hd sg, wf_rules (l1 ++ l2) ->
-    nb (init d (l1 ++ l2)) * 128 < 2 ^ 64 -> lastwe (init d (l1 ++ l2)) < 2 ^ 32 ->
+    nb (init d (l1 ++ l2)) * 128 < 2 ^ 64 -> lastwe (init d (l1 ++ l2)) + 1 < 2 ^ 32 ->
     ramrep (init d l1) rm -> hrep (init d l1) hd sg ->
     exists f0 rm' hd' sg',
       (forall f, (f0 <= f)%nat -> rules_loop f true l2 (Some (rm, hd, sg)) = Some (rm', hd', sg')) /\
@@ -315,7 +315,7 @@ Section WithAddRule.
   Qed.
 
   Lemma rules_loop_init : forall d rs rm hd sg, wf_rules rs ->
-    nb (init d rs) * 128 < 2 ^ 64 -> lastwe (init d rs) < 2 ^ 32 ->
+    nb (init d rs) * 128 < 2 ^ 64 -> lastwe (init d rs) + 1 < 2 ^ 32 ->
     ramrep (init d []) rm -> hrep (init d []) hd sg ->
     exists f0 rm' hd' sg',
       (forall f, (f0 <= f)%nat -> rules_loop f true rs (Some (rm, hd, sg)) = Some (rm', hd', sg')) /\
@@ -323,7 +323,7 @@ Section WithAddRule.
   Proof. intros d rs rm hd sg. exact (rules_loop_ok d rs [] rm hd sg). Qed.
 
   Theorem py_traph_init_fresh : forall d rs c1 c2, wf_rules rs ->
-    nb (init d rs) * 128 < 2 ^ 64 -> lastwe (init d rs) < 2 ^ 32 ->
+    nb (init d rs) * 128 < 2 ^ 64 -> lastwe (init d rs) + 1 < 2 ^ 32 ->
     exists f0 rm hd lhd sg sgl, (forall f, (f0 <= f)%nat ->
        py_traph_init_tail f (mk_pm 128 [] c1) (mk_pm 16 [] c2) d rs true = Some (rm, hd, lhd, sg, sgl)) /\
       ramrep (init d rs) rm /\ hrep (init d rs) hd sg /\ lrep (stubs (init d rs)) sgl.
@@ -341,7 +341,7 @@ Section WithAddRule.
   Theorem py_traph_clear_spec : forall s rm sg sgl od ors, ramrep s rm ->
     pm_block_size sg = 128 -> pm_block_size sgl = 16 ->
     match ors with Some rs => wf_rules rs | None => True end ->
-    let s' := clear od ors s in nb s' * 128 < 2 ^ 64 -> lastwe s' < 2 ^ 32 ->
+    let s' := clear od ors s in nb s' * 128 < 2 ^ 64 -> lastwe s' + 1 < 2 ^ 32 ->
     exists f0 rm' hd lhd sg' sgl', (forall f, (f0 <= f)%nat ->
        py_traph_clear f rm sg sgl od ors = Some (rm', hd, lhd, sg', sgl')) /\
       ramrep s' rm' /\ hrep s' hd sg' /\ lrep (stubs s') sgl'.
